@@ -54,7 +54,7 @@ FH64B = z3.Function("FH64B", BV64, BV64, BV64)
 
 
 def fold_of(F):
-    return lambda i: FOLD64(F.key.kid, F.seed, i)
+    return lambda i: FOLD64(F.key.kid, F.wide("seed"), i)
 
 
 def fh64_tail(F):
@@ -81,7 +81,7 @@ class FastHash64(_Pure):
     ghost_note = "FH_FOLD(key, seed, i) = state of the reference algorithm after i whole blocks (defined by recursion on i)"
 
     def ghost_defs(self, F):
-        return [fold_of(F)(bv(0)) == SP.fh_init(A64, F.key.len, F.seed)]
+        return [fold_of(F)(bv(0)) == SP.fh_init(A64, F.key.len, F.wide("seed"))]
 
     def ensures(self, F):
         n = F.key.len
@@ -118,7 +118,7 @@ class FastHash64(_Pure):
         return ()
 
     def call_ensures(self, F, mode):
-        yield "named", F.res == FH64B(F.key.kid, F.seed)
+        yield "named", F.res == FH64B(F.key.kid, F.wide("seed"))
 
 
 @register
@@ -127,7 +127,7 @@ class FastHash32(_Pure):
 
     def ensures(self, F):
         # reference fasthash32: h - (h >> 32) of the reference fasthash64 (= FH64B by definition)
-        h = FH64B(F.key.kid, F.seed)
+        h = FH64B(F.key.kid, F.wide("seed"))
         yield "spec", F.res == z3.Extract(31, 0, h - z3.LShR(h, bv(32)))
 
 
